@@ -768,3 +768,95 @@ Theorem reparent_step_preserves_wf_refuted :
   ~ (forall s n p s', world_wf s = true -> do_step (SReparent n p) s = Ok (tt, s') -> world_wf s' = true).
 Proof. exact C15W10Steps.reparent_step_preserves_wf_refuted. Qed.
 Print Assumptions reparent_step_preserves_wf_refuted.
+
+(* ---- wave 11: the put-back step  kids = n.child_nodes(); edits; n.set_child_nodes(kids)  (SKids n es true) ---- *)
+From DV Require Import Proofs.C15W11PutBack.
+
+(* what the step does to the store (n's children distinct and existing): the new child list c of n has no
+   duplicates and holds only old children of n and nodes that did not exist before; other child lists and the
+   parent pointers of every old node outside c are unchanged; the nodes of c point to n; new nodes are leaves *)
+Theorem put_back_store_effect : forall s n es s1, sok s -> NoDup (kids_of s n) -> (forall y, In y (kids_of s n) -> dom s y) ->
+  do_step (SKids n es true) s = Ok (tt, s1) ->
+  exists c, sok s1 /\ s_trees s1 = s_trees s /\ dom s n /\ NoDup c /\
+    (forall y, In y c -> In y (kids_of s n) \/ ~ dom s y) /\
+    (forall y, dom s y -> dom s1 y) /\
+    kids_of s1 n = c /\
+    (forall y, dom s y -> y <> n -> kids_of s1 y = kids_of s y) /\
+    (forall y, In y c -> dom s1 y /\ parent_of s1 y = Some n) /\
+    (forall y, dom s y -> ~ In y c -> parent_of s1 y = parent_of s y) /\
+    (forall y, In y c -> ~ dom s y -> kids_of s1 y = []).
+Proof. exact C15W11PutBack.put_back_store_effect. Qed.
+Print Assumptions put_back_store_effect.
+
+(* the named partial of wave 10: the put-back step at a node of a live tree preserves the invariant (the
+   "added nodes are new" side condition is part of the step succeeding: EAppend / EInsert run Node() first) *)
+Theorem put_back_step_preserves : forall s n es s1, winv s -> in_live_tree s n ->
+  do_step (SKids n es true) s = Ok (tt, s1) -> winv s1.
+Proof. exact step_put_back_preserves. Qed.
+Print Assumptions put_back_step_preserves.
+
+(* dropped children become orphans: in no live tree, own children kept, stale parent pointer to n *)
+Theorem put_back_dropped_children_leave_the_live_trees : forall s n es s1, winv s -> in_live_tree s n ->
+  do_step (SKids n es true) s = Ok (tt, s1) ->
+  forall d, In d (kids_of s n) -> ~ In d (kids_of s1 n) ->
+    ~ in_live_tree s1 d /\ dom s1 d /\ parent_of s1 d = Some n /\ kids_of s1 d = kids_of s d.
+Proof. exact put_back_dropped_children. Qed.
+Print Assumptions put_back_dropped_children_leave_the_live_trees.
+
+Theorem put_back_children_after : forall s n es s1, winv s -> in_live_tree s n ->
+  do_step (SKids n es true) s = Ok (tt, s1) ->
+  NoDup (kids_of s1 n) /\
+  forall y, In y (kids_of s1 n) -> parent_of s1 y = Some n /\
+    ((In y (kids_of s n) /\ kids_of s1 y = kids_of s y) \/ (~ dom s y /\ kids_of s1 y = [])).
+Proof. exact put_back_children. Qed.
+Print Assumptions put_back_children_after.
+
+Theorem node_with_stale_parent_is_not_live : forall s d p, winv s -> parent_of s d = Some p -> ~ In d (kids_of s p) -> ~ in_live_tree s d.
+Proof. exact stale_parent_not_live. Qed.
+Print Assumptions node_with_stale_parent_is_not_live.
+
+Theorem covered_ext_step_preserves_invariant : forall s st s', winv s -> covered_ext s st -> step_to s st s' -> winv s'.
+Proof. exact covered_ext_step_preserves. Qed.
+Print Assumptions covered_ext_step_preserves_invariant.
+
+Theorem reachable_is_reachable_ext : forall s, reachable s -> reachable_ext s.
+Proof. exact reachable_reachable_ext. Qed.
+Print Assumptions reachable_is_reachable_ext.
+
+Theorem reachable_ext_worlds_are_wellformed : forall s, reachable_ext s -> winv s /\ world_wf s = true.
+Proof. intros s R. split; [exact (reachable_ext_winv s R)|exact (reachable_ext_world_wf s R)]. Qed.
+Print Assumptions reachable_ext_worlds_are_wellformed.
+
+Theorem traversals_on_reachable_worlds_ext : forall s, reachable_ext s ->
+  forall seed, In seed (s_trees s) ->
+    let f := S (length (s_nodes s)) in
+    wf_store s f seed = true /\
+    structural_orders s f seed /\
+    (exists x, loc (store_tree s f seed, []) x /\ l_id x = seed /\
+               (2 * size (here x) + l_depth x + 2 <= store_fuel s)%nat).
+Proof. exact C15W11PutBack.traversals_on_reachable_worlds_ext. Qed.
+Print Assumptions traversals_on_reachable_worlds_ext.
+
+(* satisfiable: two put-back steps on the built tree 0(1(3),2) *)
+Theorem reachable_ext_world_example :
+  exists s, reachable_ext s /\ s_trees s = [0]%Z /\
+    ids (store_tree s (S (length (s_nodes s))) 0%Z) = [0; 8; 7; 1; 9]%Z /\
+    ~ in_live_tree s 2%Z /\ ~ in_live_tree s 3%Z /\ parent_of s 2%Z = Some 0%Z /\ parent_of s 3%Z = Some 1%Z.
+Proof. exact reachable_ext_example. Qed.
+Print Assumptions reachable_ext_world_example.
+
+(* the side condition in_live_tree cannot be dropped for arbitrary stores satisfying the invariant *)
+Theorem put_back_on_orphan_preserves_winv_refuted :
+  ~ (forall s n es s', winv s -> do_step (SKids n es true) s = Ok (tt, s') -> winv s').
+Proof. exact C15W11PutBack.put_back_on_orphan_preserves_winv_refuted. Qed.
+Print Assumptions put_back_on_orphan_preserves_winv_refuted.
+
+Theorem put_back_on_any_node_preserves_wf_refuted :
+  ~ (forall s n es s', world_wf s = true -> do_step (SKids n es true) s = Ok (tt, s') -> world_wf s' = true).
+Proof. exact C15W11PutBack.put_back_on_any_node_preserves_wf_refuted. Qed.
+Print Assumptions put_back_on_any_node_preserves_wf_refuted.
+
+Theorem put_back_adding_an_existing_node_is_not_a_step :
+  forall s', ~ step_to ex_orphan_store (SKids 0%Z [EAppend 5%Z] true) s'.
+Proof. exact C15W11PutBack.put_back_adding_an_existing_node_is_not_a_step. Qed.
+Print Assumptions put_back_adding_an_existing_node_is_not_a_step.
